@@ -572,9 +572,69 @@ pub fn run_conc(cfg: &ConcCfg, trace: bool) -> RunOut {
     out.add("probe.conc.max_preemptions_in_a_schedule", 0);
     out.counters.insert("probe.conc.max_preemptions_in_a_schedule".into(), max_pre);
     out.add("probe.conc.distinct_schedules", distinct.len() as u64);
+    if cfg.spec.has_phys() {
+        out.counters.insert("probe.conc.syscall_yield_points_active".into(), (SYSCALL_YIELDS.load(std::sync::atomic::Ordering::Relaxed) > 0) as u64);
+    }
     out.state_hashes = distinct.into_iter().map(|d| mix(d, sig)).collect();
     out.signature = sig;
     let calls: usize = cfg.program.iter().map(|t| t.len()).sum();
     out.nontrivial = cfg.program.len() >= 2 && calls >= 3 && out.state_hashes.len() >= 2;
     out
+}
+
+// ------------------------------------------------------------------------------------------
+// Syscall-level scheduling points for PhysicalFS. The binary defines the libc entry points the
+// library's mutating file-system calls go through; references from std inside this executable
+// bind to these definitions, which report a yield point to the baton scheduler (a no-op on
+// uncontrolled threads) and then call the real function found with dlsym(RTLD_NEXT). This puts a
+// scheduling decision in front of every mkdir/rmdir/unlink/rename the library issues, so a
+// check-then-act inside one PhysicalFS trait call can be interleaved as well.
+
+pub static SYSCALL_YIELDS: std::sync::atomic::AtomicU64 = std::sync::atomic::AtomicU64::new(0);
+
+unsafe fn real_fn(name: &'static [u8], cache: &std::sync::atomic::AtomicUsize) -> usize {
+    let mut f = cache.load(std::sync::atomic::Ordering::Relaxed);
+    if f == 0 {
+        f = libc::dlsym(libc::RTLD_NEXT, name.as_ptr() as *const libc::c_char) as usize;
+        cache.store(f, std::sync::atomic::Ordering::Relaxed);
+    }
+    f
+}
+
+fn sys_yield(label: &'static str) {
+    if conc_yield(label, false) {
+        SYSCALL_YIELDS.fetch_add(1, std::sync::atomic::Ordering::Relaxed);
+    }
+}
+
+#[no_mangle]
+pub unsafe extern "C" fn mkdir(path: *const libc::c_char, mode: libc::mode_t) -> libc::c_int {
+    static REAL: std::sync::atomic::AtomicUsize = std::sync::atomic::AtomicUsize::new(0);
+    sys_yield("sys.mkdir");
+    let f: unsafe extern "C" fn(*const libc::c_char, libc::mode_t) -> libc::c_int = std::mem::transmute(real_fn(b"mkdir\0", &REAL));
+    f(path, mode)
+}
+
+#[no_mangle]
+pub unsafe extern "C" fn rmdir(path: *const libc::c_char) -> libc::c_int {
+    static REAL: std::sync::atomic::AtomicUsize = std::sync::atomic::AtomicUsize::new(0);
+    sys_yield("sys.rmdir");
+    let f: unsafe extern "C" fn(*const libc::c_char) -> libc::c_int = std::mem::transmute(real_fn(b"rmdir\0", &REAL));
+    f(path)
+}
+
+#[no_mangle]
+pub unsafe extern "C" fn unlink(path: *const libc::c_char) -> libc::c_int {
+    static REAL: std::sync::atomic::AtomicUsize = std::sync::atomic::AtomicUsize::new(0);
+    sys_yield("sys.unlink");
+    let f: unsafe extern "C" fn(*const libc::c_char) -> libc::c_int = std::mem::transmute(real_fn(b"unlink\0", &REAL));
+    f(path)
+}
+
+#[no_mangle]
+pub unsafe extern "C" fn rename(from: *const libc::c_char, to: *const libc::c_char) -> libc::c_int {
+    static REAL: std::sync::atomic::AtomicUsize = std::sync::atomic::AtomicUsize::new(0);
+    sys_yield("sys.rename");
+    let f: unsafe extern "C" fn(*const libc::c_char, *const libc::c_char) -> libc::c_int = std::mem::transmute(real_fn(b"rename\0", &REAL));
+    f(from, to)
 }
